@@ -23,6 +23,10 @@ Shape V (exhaustive value-domain sweeps) + S (end to end).
             process, all p=q=2 spellings parsed in every step -- once against the stateful
             libc stand-ins, once with a REAL ','-locale (built with localedef into
             .build/locales, switched with setlocale); oracle strtod_l("C").
+ neighbours near-equal literals (x, its ulp neighbours, x + 2.2e-16, x + 1e-17) of 40 anchors
+            side by side as defaults of same-signature functions and as macros in one header.
+            An end-to-end failure that does not reproduce alone is bisected to the smallest
+            set of header-mates that still shows it and reported with them.
  end to end headers with 2000 `void f_i(double x = LIT);` + `#define M_i LIT` for every LIT
             of the p=q=2 space and for 17/25-significant-digit spellings of a lattice of
             doubles -> interrogate (-python-native and -c) -> the literal as
@@ -310,60 +314,152 @@ def e2e_single(ck, b, lit, float_family, tag, real_locale=False):
     return res
 
 
-def run_e2e(ck, acc, b, family, lits, float_family, real_locale=False):
-    batches = [lits[i:i + E2E_BATCH] for i in range(0, len(lits), E2E_BATCH)]
+def e2e_minimise(ck, b, bl, i, float_family, real_locale, tag):
+    """literal bl[i] failed inside its header.  [] if it also fails alone; otherwise the
+    smallest set of header-mates (indices) found by bisection with which it still fails
+    (interrogate interns types and expressions: one declaration can change what is printed
+    for another); None when even the whole header no longer reproduces it."""
+    n = [0]
+
+    def fails(idx):
+        n[0] += 1
+        sel = sorted(set(idx) | {i})
+        r = e2e_batch((b, os.path.join(ck.scratch(), "%s-%d" % (tag, n[0])), [bl[j] for j in sel],
+                       float_family, real_locale))
+        shutil.rmtree(os.path.join(ck.scratch(), "%s-%d" % (tag, n[0])), ignore_errors=True)
+        if "error" in r:
+            raise HarnessError(r["error"])
+        return bool(r["bad"].get(sel.index(i)))
+
+    if fails([]):
+        return []
+    S = [j for j in range(len(bl)) if j != i]
+    if not fails(S):
+        return None
+    while len(S) > 1:
+        h = len(S) // 2
+        if fails(S[:h]):
+            S = S[:h]
+        elif fails(S[h:]):
+            S = S[h:]
+        else:
+            break
+    return S
+
+
+def run_e2e(ck, acc, b, family, lits, float_family, real_locale=False, groups=None):
+    """groups: optional list of (label, [literals]) -- each group is one header of its own;
+    otherwise the literals are cut into headers of E2E_BATCH."""
+    if groups is None:
+        groups = [("", lits[i:i + E2E_BATCH]) for i in range(0, len(lits), E2E_BATCH)]
+    total = sum(len(g[1]) for g in groups)
     done = 0
-    for c0 in range(0, len(batches), 16):
+    for c0 in range(0, len(groups), 16):
         if ck.expired(reserve=30):
-            ck.cap("deadline in %s after %d of %d literals" % (family, done, len(lits)))
+            ck.cap("deadline in %s after %d of %d literals" % (family, done, total))
             return False
-        chunk = batches[c0:c0 + 16]
+        chunk = groups[c0:c0 + 16]
         jobs = [(b, os.path.join(ck.scratch(), "%s-%d" % (family, c0 + j)), bl, float_family,
-                 real_locale) for j, bl in enumerate(chunk)]
+                 real_locale) for j, (lab, bl) in enumerate(chunk)]
         results = pmap(e2e_batch, jobs)
-        for (bb, d, bl, ff, rl), res in zip(jobs, results):
+        for (lab, _), (bb, d, bl, ff, rl), res in zip(chunk, jobs, results):
             if "error" in res:
                 raise HarnessError(res["error"])
+            prefix = family + ("/" + lab if lab else "")
             for i, lit in enumerate(bl):
                 pr = res["printed"][i]
                 bad = res["bad"].get(i)
                 places = len(pr)
                 texts = sorted(set(t for _, t in pr))
                 outcome = "same-bits in %d places" % places if not bad else "DIFFERENT"
-                ck.note("%s/%s" % (family, lit), nontrivial=nontrivial_lit(lit), outcome=outcome,
+                ck.note("%s/%s" % (prefix, lit), nontrivial=nontrivial_lit(lit), outcome=outcome,
                         family=family, transitions=places,
                         sample={"literal": lit + ("f" if float_family else ""),
                                 "bits": res["bits"].get(i), "printed": texts})
                 acc.values += 1
                 acc.nontrivial += 1 if nontrivial_lit(lit) else 0
                 acc.per_family[family] = acc.per_family.get(family, 0) + 1
-                if bad:
-                    if not acc.may_report(family):
-                        acc.suppressed += 1
-                        continue
-                    n = [0]
+                if not bad:
+                    continue
+                if not acc.may_report(family):
+                    acc.suppressed += 1
+                    continue
+                mates = e2e_minimise(ck, b, bl, i, float_family, real_locale,
+                                     "min-%s-%d-%d" % (family, c0, i))
+                if mates is None:
+                    raise HarnessError("failure of %s/%s did not reproduce when its header was re-run "
+                                       "(batching/harness artefact): printed %r"
+                                       % (prefix, lit, bad[0][1]))
+                sel = sorted(set(mates) | {i})
+                group = [bl[j] for j in sel]
+                tpos = sel.index(i)
+                n = [0]
 
-                    def confirm(lit=lit):
-                        n[0] += 1
-                        r1 = e2e_single(ck, b, lit, float_family, "confirm-%s-%d" % (family, n[0]),
-                                        real_locale)
-                        if "error" in r1:
-                            raise HarnessError(r1["error"])
-                        return bool(r1["bad"])
-                    w = bad[0]
-                    ck.fail("%s/%s" % (family, lit),
-                            "literal %s%s (bits %s) is printed as %r in %s (bits %s)%s%s"
-                            % (lit, "f" if float_family else "", w[2], w[1], w[0], w[3],
-                               "" if len(bad) == 1 else " and %d more places" % (len(bad) - 1),
-                               " [interrogate running under a real ','-decimal LC_NUMERIC]"
-                               if real_locale else ""),
-                            {"observed": w[1], "kind": "e2e", "literal": lit,
-                             "float_family": float_family, "real_locale": real_locale,
-                             "all": bad}, confirm=confirm)
+                def confirm(group=group, tpos=tpos):
+                    n[0] += 1
+                    r1 = e2e_batch((b, os.path.join(ck.scratch(), "confirm-%s-%d" % (family, n[0])),
+                                    group, float_family, real_locale))
+                    shutil.rmtree(os.path.join(ck.scratch(), "confirm-%s-%d" % (family, n[0])),
+                                  ignore_errors=True)
+                    if "error" in r1:
+                        raise HarnessError(r1["error"])
+                    return bool(r1["bad"].get(tpos))
+                w = bad[0]
+                key = "%s/%s" % (prefix, lit)
+                what = ("literal %s%s (bits %s) is printed as %r in %s (bits %s)%s%s"
+                        % (lit, "f" if float_family else "", w[2], w[1], w[0], w[3],
+                           "" if len(bad) == 1 else " and %d more places" % (len(bad) - 1),
+                           " [interrogate running under a real ','-decimal LC_NUMERIC]"
+                           if real_locale else ""))
+                if mates:
+                    others = sorted(bl[j] for j in mates)
+                    key += "  @with  " + " ;; ".join(others)
+                    what += ("  -- only when the same header also declares a function of the same "
+                             "signature with default " + ", ".join(others[:4]))
+                ck.fail(key, what,
+                        {"observed": w[1], "kind": "e2e", "literal": lit, "group": group,
+                         "target": tpos, "float_family": float_family, "real_locale": real_locale,
+                         "all": bad}, confirm=confirm)
             if not ck.keep:
                 shutil.rmtree(d, ignore_errors=True)
             done += len(bl)
     return True
+
+
+def neighbour_groups():
+    """near-equal literals put side by side on purpose: same-signature functions (same
+    parameter name) and macros in ONE header per anchor, plus one header with all of them."""
+    import math
+    import struct
+    anchors = [0.0, 5e-324, 1e-320, 2.2250738585072014e-308, 1e-300, 1e-100, 1e-30, 1e-20, 1e-17,
+               1e-16, 2.2e-16, 1e-15, 1e-10, 1e-5, 0.001, 0.1, 0.2, 0.3, 0.5, 0.7,
+               0.9999999999999999, 1.0, 1.5, 2.0, 3.141592653589793, 10.0, 100.0, 1024.0, 1e5,
+               123456789.125, 1e10, 1e15, 4503599627370496.0, 9007199254740992.0, 1e16, 1e20,
+               1e22, 1e23, 1e100, 1e300]
+
+    def nxt(x, k):
+        u = struct.unpack("<q", struct.pack("<d", x))[0] + k
+        return struct.unpack("<d", struct.pack("<q", u))[0] if u >= 0 else None
+
+    groups, everything = [], []
+    for x in anchors:
+        vals = [x, nxt(x, 1), nxt(x, -1), nxt(x, 2), x + 2.220446049250313e-16,
+                x * (1 + 2.0 ** -52), x + 1e-17]
+        lits = []
+        for v in vals:
+            if v is None or v < 0 or math.isinf(v):
+                continue
+            t = repr(v)
+            if "." not in t and "e" not in t:
+                t += ".0"
+            if t not in lits:
+                lits.append(t)
+        groups.append((repr(x), lits))
+        for t in lits:
+            if t not in everything:
+                everything.append(t)
+    groups.append(("all", everything))
+    return groups
 
 
 # -------------------------------------------------------------------------------- main
@@ -514,6 +610,11 @@ def explore(ck):
         lits = list(literal_space(2, 2))
         if run_e2e(ck, acc, b, "e2e-locale", lits, False, real_locale=True):
             completed.append("end to end p=q=2, interrogate under a real ','-locale (%d)" % len(lits))
+    if want("neighbours"):
+        ng = neighbour_groups()
+        if run_e2e(ck, acc, b, "neighbours", None, False, groups=ng):
+            completed.append("end to end near-equal literals side by side (%d anchors, %d literals)"
+                             % (len(ng) - 1, len(ng[-1][1])))
     if want("e2e"):
         lits = list(literal_space(2, 2))
         if run_e2e(ck, acc, b, "e2e", lits, False):
@@ -603,7 +704,13 @@ def replay(ck, b, exe):
     if d.get("real_locale"):
         REAL["locpath"] = lib_c18.build_comma_locale()
         REAL["so"] = harness.compile_so("c18_setlocale")
-    res = e2e_single(ck, b, d["literal"], d["float_family"], "replay", d.get("real_locale", False))
+    group = d.get("group") or [d["literal"]]
+    tpos = d.get("target", 0)
+    res = e2e_batch((b, os.path.join(ck.scratch(), "replay"), group, d["float_family"],
+                     d.get("real_locale", False)))
+    if "error" not in res:
+        res = {"header_literals": group, "literal": group[tpos], "bits": res["bits"].get(tpos),
+               "printed": res["printed"][tpos], "bad": res["bad"].get(tpos)}
     print(json.dumps(res, indent=1))
     ck.cleanup()
     return 1 if res.get("bad") or "error" in res else 0
